@@ -12,6 +12,8 @@ use std::sync::Mutex;
 use trippy_core::verif::IcmpPacketCode;
 use trippy_core::{IcmpPacketType, ProbeStatus};
 
+pub const ASSUME: &str = "simulated socket layer behaves like a kernel (DESIGN.md 5.12); harness wire codec self-tested against captures from the repository; virtual clock via clock_gettime interposition (self-tested at start-up)";
+
 pub fn expected_icmp_type(kind: RespKind) -> IcmpPacketType {
     match kind {
         RespKind::TimeExceeded(c) => IcmpPacketType::TimeExceeded(IcmpPacketCode(c)),
